@@ -262,20 +262,34 @@ def c09_setop(d: int, param: int, has_l: bool, l: int, has_o: bool, o: int, orde
     cubes={"ordered": [0, 1]},
     bounds={"quick": {"N": 99}, "thorough": {"N": 9999}},
     timeout={"quick": 60, "thorough": 300},
-    witness=[dict(ordered=0, n=3, as_str=False), dict(ordered=1, n=0, as_str=True)],
-    doc="SQL Server top(n), n as int or numeric string, 0..N: SELECT TOP (n) is emitted for every n (0 included)",
+    witness=[dict(ordered=0, n=3, as_str=False, distinct=False, top_first=False),
+             dict(ordered=1, n=0, as_str=True, distinct=True, top_first=True)],
+    doc="SQL Server top(n), n as int or numeric string, 0..N, with / without DISTINCT, top() before or after the other "
+        "calls: SELECT [DISTINCT] TOP (n) is emitted for every n (0 included)",
 )
-def c09_top(ordered: int, n: int, as_str: bool) -> int:
+def c09_top(ordered: int, n: int, as_str: bool, distinct: bool, top_first: bool) -> int:
     """
     bound: 0 <= n <= N
     """
     t = Table("t")
-    q = MSSQLQuery.from_(t).select(t.a)
-    if ordered:
-        q = q.orderby(t.a)
-    base = q.get_sql(dctx(4))
-    q = q.top(str(n) if as_str else n)
+    distinct, top_first = bool(distinct), bool(top_first)
+    nn = str(n) if as_str else n
+
+    def rest(q):
+        q = q.select(t.a)
+        if distinct:
+            q = q.distinct()
+        if ordered:
+            q = q.orderby(t.a)
+        return q
+
+    base = rest(MSSQLQuery.from_(t)).get_sql(dctx(4))
+    q = rest(MSSQLQuery.from_(t).top(nn)) if top_first else rest(MSSQLQuery.from_(t)).top(nn)
     out = q.get_sql(dctx(4))
     note("sql", out)
-    exp = "SELECT TOP (" + str(n) + ") " + base[len("SELECT "):]
-    return verdict(out == exp, "c09_top", ordered=ordered, n=n, as_str=as_str)
+    # T-SQL: SELECT [ALL | DISTINCT] [TOP (expression)] select_list
+    head = "SELECT DISTINCT " if distinct else "SELECT "
+    exp = head + "TOP (" + str(n) + ") " + base[len(head):]
+    note("expected", exp)
+    return verdict(base.startswith(head) and out == exp, "c09_top", ordered=ordered, n=n, as_str=as_str, distinct=distinct,
+                   top_first=top_first)
